@@ -419,6 +419,43 @@ example : Proofs.MapInv.MapOK tblNsEnv (userDefault [(some ['p'], urnB)]) (seria
 example : resolveElem (Proofs.TreeWriter.flushed tblNsEnv false [] (none, ['R']) [] (serializerNsMap [(some ['p'], urnB)])).map
     ['p', ':', 'T'] = some (some urnB, ['T']) := by decide +kernel
 
+/-- **root_qname_values_resolve (partial)** — gap 7 for the document element, hypotheses on the
+inputs: for every user prefix map in `userMapOK`, root element name and attributes in
+`elemNameOK` / `attrOK`, the start tag the native writer writes for the root (`XMLGenerator`'s
+token for the handler's calls, whatever `is_nil`) opens a namespace scope in which the text `s` of each
+QName-valued attribute (`xsi:type` of a `DerivedElement` root, a QName-typed attribute; the value the
+writer reads as a QName, `xsiTypeValue`) with a namespace resolves to that QName — or `s` is the bare
+local name (the namespace is the default of the map: findings c03-qname-default-ns / -reset).
+(`ha`: the handler's attribute loop ran, cf. `treeWriterDefined`.) -/
+theorem root_qname_values_resolve_partial (m : List (Pfx × Str)) (hm : userMapOK tblNsEnv m = true)
+    (q : Str) (attrs : List (Str × Val))
+    (hname : elemNameOK q = true) (hattrs : attrs.all (attrOK tblNsEnv (userDefault m)) = true)
+    (tag : EName) (hq : splitQName q = .ok tag) (M2 : NsMap) (A : Proofs.TreeWriter.Attrs)
+    (ha : Proofs.TreeWriter.attrsRun tblNsEnv attrs (addNamespace tblNsEnv tag.1 (serializerNsMap m)) [] = some (M2, A))
+    (pre post : List (Str × Val)) (qa : Str) (v : Val) (t u l : Str)
+    (hsplit : attrs = pre ++ (qa, v) :: post)
+    (hv : xsiTypeValue tblNsEnv qa v = .atom (.qname t)) (ht : clark t = some (some u, l)) (isNil : Bool) :
+    ∃ s w ws vs scope' decls g',
+      gRun tblNsEnv.saxXmlNs GState.init (Proofs.TreeWriter.flushed tblNsEnv isNil [] tag A M2).calls
+        = .ok ([Tok.open_ w decls ws], g')
+      ∧ pStep ⟨[], none, false⟩ (Tok.open_ w decls ws) = some ⟨[⟨w, tag, vs, [], scope'⟩], none, false⟩
+      ∧ (s = l ∨ resolveElem scope' s = some (some u, l)) :=
+  Proofs.QNameScope.root_qname_scope tblNsEnv tables_ok m hm q attrs hname hattrs tag hq M2 A ha pre post qa v t u l
+    hsplit hv ht isNil
+
+/-- the hypotheses are satisfiable: root `{urn:a}R` with `xsi:type = {urn:b}T` under a user map with a
+default namespace and an unrelated prefix -/
+example :
+    let m : List (Pfx × Str) := [(none, urnA), (some ['z'], urnX)]
+    let attrs : List (Str × Val) := [(Tables.qnXsiType, .atom (.qname (inB ['T'])))]
+    userMapOK tblNsEnv m = true ∧ elemNameOK (inA ['R']) = true
+    ∧ attrs.all (attrOK tblNsEnv (userDefault m)) = true
+    ∧ (∃ tag M2 A, splitQName (inA ['R']) = .ok tag
+        ∧ Proofs.TreeWriter.attrsRun tblNsEnv attrs (addNamespace tblNsEnv tag.1 (serializerNsMap m)) [] = some (M2, A))
+    ∧ xsiTypeValue tblNsEnv Tables.qnXsiType (.atom (.qname (inB ['T']))) = .atom (.qname (inB ['T']))
+    ∧ clark (inB ['T']) = some (some urnB, ['T']) := by
+  refine ⟨by decide +kernel, by decide +kernel, by decide +kernel, ⟨_, _, _, rfl, rfl⟩, rfl, by decide +kernel⟩
+
 /-- the cleaned user map satisfies the invariant whenever it passes the decidable check -/
 theorem user_map_invariant (m : List (Pfx × Str)) (hm : userMapOK tblNsEnv m = true) :
     Proofs.MapInv.MapOK tblNsEnv (userDefault m) (serializerNsMap m) :=
